@@ -1,25 +1,98 @@
 """C02 — liveness is exactly the set of register bytes that can still be read."""
 
+PROPS = ["AvoVerif.Props.C02", "AvoVerif.Props.C02Term", "AvoVerif.Props.C02UseDef", "AvoVerif.Props.C02Accept"]
+
+
+def _floors(ctx, st):
+    """Lower bounds on what was actually judged: a stream that silently drops its cases (operands rejected, functions
+    rejected, a generator that stopped producing a shape) would otherwise hide a failure behind `0 mismatches`."""
+    def need(cond, name, text):
+        if not cond:
+            ctx.obligation_failures.append(("c02 sample floor: " + name, text))
+    g = lambda k: int(st.get(k, 0))
+    att, ud = g("usedef_attempts"), g("usedef")
+    need(g("rows_total") >= 1000, "rows", f"form table has {g('rows_total')} rows")
+    need(att >= g("rows_total") and ud * 100 >= att * 98, "usedef",
+         f"{ud} of {att} form instances judged (rejected {g('form_rejected')}, unmatched {g('no_matched_form')}); at least 98% must be")
+    need(g("cancelling_rows") >= 1 and g("cancelling_equal") >= g("cancelling_rows"), "cancelling_equal",
+         f"{g('cancelling_equal')} self-cancelling instances with equal registers for {g('cancelling_rows')} cancelling rows")
+    need(g("cancelling_other_view") >= 4, "cancelling_other_view", f"{g('cancelling_other_view')} instances with two byte views of one register")
+    need(g("cancelling_rows_not_leading_with_two_read_registers") == 0, "cancelling_shape",
+         "a self-cancelling form does not lead with two read register operands (InputRegisters indexes rs[0], rs[1])")
+    for k, lo in (("shape:mem_vector_index", 50), ("shape:mem_gp_index", 200), ("shape:written_mem_with_address_registers", 200),
+                  ("shape:implicit_operand", 100), ("shape:mask_operand", 500), ("shape:merge_destination", 300),
+                  ("shape:gp32_destination", 100), ("shape:high_byte_register", 20)):
+        need(g(k) >= lo, k, f"{g(k)} judged instances (floor {lo})")
+    need(g("chain_functions") >= 28 and g("chain_max_depth") >= 16, "chains",
+         f"{g('chain_functions')} backward-branch chain functions judged, deepest {g('chain_max_depth')} (need 28 / 16)")
+    need(g("degenerate_functions") >= 4, "degenerate", f"{g('degenerate_functions')} degenerate functions judged (empty, single instruction, self-loops)")
+    n = ctx._c02_n
+    need(g("functions") * 100 >= n * 90, "functions", f"{g('functions')} of {n} generated functions judged ({g('functions_cfg_rejected')} rejected)")
+    need(g("back_edges") >= n // 20 and g("cond_branches") >= n // 2, "control flow", f"back edges {g('back_edges')}, conditional branches {g('cond_branches')}")
+    unresolved = [k for k in st if k.startswith("implicit_register_name_unresolved:")]
+    if unresolved:
+        ctx.notes.append("implicit register names not resolved independently (register taken from the compiled table): " + ", ".join(unresolved))
+
+
 def run(ctx):
     if not ctx.build_harness(['c09.go', 'c02.go']):
         return
     ctx.forbidden_scan()
     if not ctx.build_driver():
         return
-    if ctx.lake_each(["AvoVerif.Props.C02", "AvoVerif.Props.C02Term"]):
+    if ctx.lake_each(PROPS):
         ctx.audit("C02")
     if ctx.tier == "thorough":
-        ctx.leanchecker(["AvoVerif.Props.C02", "AvoVerif.Props.C02Term"])
+        ctx.leanchecker(PROPS)
     nt = lambda req, resp: req.startswith(("live ", "accept-live ")) and " 2 " in req or "usedef 1 " in req
     ctx.run_corpus("c02", nontrivial=nt)
-    n = 1500 if ctx.tier == "quick" else 40000
-    ctx.differential("c02", n, nontrivial=nt)
-    ctx.coverage["rule"] = ("(a) every instruction form (quick: every 3rd row, offset by seed; thorough: every row x3 operand choices; all "
-                            "self-cancelling forms also with equal registers) built through the real form table: InputRegisters/"
-                            "OutputRegisters after ZeroExtend32BitOutputs vs the read/write specification from the form's operand "
-                            "actions; (b) generated functions (loops, diamonds, unreachable code, fall-off-the-end, all widths, "
-                            "physical + virtual registers) through the real LabelTarget/CFG/ZeroExtend/Liveness: LiveIn/LiveOut "
-                            "compared exactly with the model of the algorithm AND with a direct path-search evaluation of the "
-                            "specification (acceptor)")
-    ctx.assumptions += ["operand actions in the form table are what the CPU does (that is C04)",
-                        "Succ lists are the CFG of C09"]
+    n = 1500 if ctx.tier == "quick" else 30000
+    ctx._c02_n = n
+    r = ctx.differential("c02", n, nontrivial=nt)
+    st = ctx.coverage.get("input_distribution", {}).get("c02", {})
+    if r is not None:
+        _floors(ctx, st)
+    from_names = bool(st.get("spec_actions_from_source_names"))
+    ctx.coverage["usedef_spec_actions"] = (
+        "operand action NAMES (actionN/R/W/RW) read from the rows of x86/zoptab.go with go/ast and interpreted by their letters"
+        if from_names else
+        "COMPILED table through the verif hook (the rows of x86/zoptab.go could not be aligned with it in this run): "
+        "a change to action.Read/Write or to the action constants would move both sides")
+    ctx.coverage["rule"] = (
+        "(a) EVERY instruction form row in every tier (thorough: x3 operand choices; every self-cancelling form also with equal "
+        "registers and with the low/high byte views of one register) built through the real form table: InputRegisters/"
+        "OutputRegisters after ZeroExtend32BitOutputs vs specReads/specWrites, exactly (`usedef`) and through the acceptor "
+        "`acceptUseDef` (theorem acceptUseDef_sound). The specification side takes nothing from the code under test: operand "
+        "actions by NAME from the source rows, implicit registers by NAME (architectural naming rules), address registers by "
+        "own traversal of Mem.Base/Mem.Index (vector index included), the 32-bit-destination flag from the register's own kind "
+        "and mask; floors on the number of judged instances per operand shape. "
+        "(b) functions through the real LabelTarget/CFG/ZeroExtend/Liveness: LiveIn/LiveOut compared exactly with the model of "
+        "the algorithm (`live`) AND judged by the acceptor `accept-live`: verdict `acceptLive` (theorem acceptLive_sound_checked: "
+        "equivalent to the path specification at every instruction, register and lane) which must agree with a direct "
+        "backward-closure evaluation of the path specification that shares nothing with the model of the algorithm, and "
+        "the graph itself through C09's acceptor (`accept-cfg`): (b1) in every run chains of 2..16 sequential backward "
+        "branches (the analysis needs about as many sweeps as the chain is deep; carried register of every kind/width, read "
+        "as operand or as address register, partial redefinition on the way, enclosing loop) and degenerate functions (empty, one instruction, self-loops), (b2) random functions (loops, "
+        "diamonds, unreachable code, fall-off-the-end, all widths, physical + virtual registers)")
+    ctx.coverage["claim"] = (
+        "proof: the function-level statement (liveness_exact_total / liveout_exact_total, no hypothesis besides a well-formed CFG) "
+        "and the instruction-level statements over arbitrary operand lists are proved; that the real code computes what the "
+        "models compute is measured (exact differential on every form row and on generated functions)")
+    ctx.assumptions += [
+        "operand actions declared in the form table are what the CPU does (that is C04); C02 takes the declared actions as the "
+        "meaning of 'read'/'written', masks and merge destinations being operands the table declares as read",
+        "Succ lists are the CFG of C09 (re-judged here on every generated function by accept-cfg)",
+        "the path specification quantifies over the 7 byte LANES of a register (bytes 0, 1, 2-3, 4-7, 8-15, 16-31, 32-63), "
+        "not single bytes: equivalent because every register mask is a union of lanes (reg.Spec)",
+        "specReads is total where InputRegisters would panic (self-cancelling form with fewer than two read registers): every "
+        "cancelling row is checked on every run to lead with two read register operands (sample floor `cancelling_shape`) and "
+        "is built and run through the real InputRegisters",
+        "the function-level comparison feeds the model the implementation's own InputRegisters/OutputRegisters per "
+        "instruction; their correctness is the instruction-level comparison (a), made on separately built instructions",
+    ]
+    ctx.trusted += [
+        "go/ast reading of the action names in x86/zoptab.go and their interpretation by letters (R = read, W = write)",
+        "reg package: register identities, masks, kinds and the physical register table (C03/C20), used to name implicit "
+        "registers and to render operands",
+        "x86.VerifMatch (the table's own operand matcher) to determine which row x86.build selects (first match; C05/C06)",
+    ]
